@@ -5,6 +5,7 @@ object, locale, cwd and live library blocks.  BFS over the op alphabet from the 
 replayed in a fresh process); every result is compared bit for bit with the result of the same op in a freshly exec'd process.
 """
 import os, sys, json, itertools, threading
+import multiprocessing as mp
 import numpy as np
 import common, build, xrl, c03
 from xrl import F_ERR, F_NULLOBJ, F_STDERR, F_EMPTYMSG, F_AUX
@@ -212,6 +213,76 @@ def order_invariance(ctx, B, cfg, cap):
     return ncalls
 
 
+_IMMUT_PLANS = None          # set before the pool forks: the workers inherit the plans instead of receiving pickled copies
+
+
+def _immut_worker(cfg, part, cap):
+    """one driver process of the section-renamed build runs whole plans; the digest of the library's writable sections and of the table object is taken
+    before and after each plan.  Returns [(plan index, first mutating tuple index or -1, key before, key after)], calls made"""
+    B = build.Build(verbose=False)
+    plans = [(i, _IMMUT_PLANS[i]) for i in part]
+    mk = lambda: xrl.Xrl("plain", cfg, build=B, nproc=1, sections=True)
+
+    def key(X):
+        r, ls = X.op("statekey", "i", [1]); f = ls[0].split("\t")
+        return (f[1], f[2])
+    out = []; calls = 0
+    X = mk(); k0 = key(X)
+    for idx, p in plans:
+        if p.n > cap:
+            step = p.n // cap + 1
+            p = c03.Plan(p.name, p.kind, p.sig, [c[::step] for c in p.cols], p.op)
+        c03.run_plan(X, p, 0); calls += p.n
+        k1 = key(X)
+        if k1 == k0:
+            continue
+        # which tuple?  fresh process per probe, bisection on sub-ranges (a write does not depend on the tuples before it; if it does, the range is reported)
+        lo, hi = 0, p.n
+        while hi - lo > 1:
+            mid = (lo + hi) // 2
+            X.close(); X = mk(); kb = key(X)
+            q = c03.Plan(p.name, p.kind, p.sig, [c[lo:mid] for c in p.cols], p.op)
+            c03.run_plan(X, q, 0); calls += q.n
+            if key(X) != kb:
+                hi = mid
+            else:
+                lo = mid
+        X.close(); X = mk(); kb = key(X)
+        q = c03.Plan(p.name, p.kind, p.sig, [c[lo:hi] for c in p.cols], p.op)
+        c03.run_plan(X, q, 0)
+        single = key(X) != kb
+        out.append((idx, lo if single else -1, c03.argtuple(p, lo), k0, k1))
+        X.close(); X = mk(); k0 = key(X)
+    X.close()
+    return out, calls
+
+
+def table_immutability(ctx, B, cfg, cap, level=0):
+    """'No call modifies the library's tables': every entry point's complete C03 argument product is executed in a process of the
+    section-renamed build; the digest of the library's own writable sections (.data/.bss of the library objects) and of the whole table object must be the
+    same after the plan as before it.  A difference is bisected to the tuple.  Explicit insertions into the built-in crystal collection are not in these plans."""
+    global _IMMUT_PLANS
+    _IMMUT_PLANS = c03.build_plans(B, cfg, level, ctx.seed)
+    plans = [(i, p) for i, p in enumerate(_IMMUT_PLANS) if p.n > 0]
+    order = [i for i, p in sorted(plans, key=lambda ip: -ip[1].n)]
+    W = 16
+    calls = 0
+    with mp.get_context("fork").Pool(W) as pool:
+        for res, n in pool.starmap(_immut_worker, [(cfg, order[k::W], cap) for k in range(W)]):
+            calls += n
+            for idx, j, args, k0, k1 in res:
+                p = _IMMUT_PLANS[idx]
+                what = "the library's writable sections" if k0[0] != k1[0] else "the data tables"
+                ctx.violation("%s|modifies-library-memory|%s" % (cfg, p.name), "%s%r changes %s (digest %s/%s -> %s/%s)%s" % (
+                    p.name, tuple(args), what, k0[0][:8], k0[1][:8], k1[0][:8], k1[1][:8], "" if j >= 0 else " [in combination with the preceding tuples of the plan]"),
+                    dict(cfg=cfg, immut=True, ops=[dict(kind=p.kind, name=p.name if p.kind == "fn" else p.op, sig=p.sig, args=args)]))
+    _IMMUT_PLANS = None
+    nplans = len(plans)
+    ctx.add(evaluations=calls)
+    ctx.notes.setdefault("table_immutability", {})[cfg] = dict(plans=nplans, calls=calls)
+    return calls
+
+
 CF_LINES = ["#S 1 Nm", "#S 2 Nn", "#UCELL 5.4 5.4 5.4 90 90 90", "#UCELL 5.4 5.4", "#L AtomicNumber Fraction X Y Z", "14 1.0 0.0 0.5 0.5", "14 1.0 zero", "#EOF"]
 
 
@@ -390,6 +461,7 @@ def run(ctx, B):
         P.close()
         total_trans += order_invariance(ctx, B, cfg, 20000 if quick else 60000)
         total_trans += state_scan(ctx, B, cfg, "xx_XX" if loc else None, quick)
+        total_trans += table_immutability(ctx, B, cfg, 1 << 40, 0 if quick else 1)
         if cfg == "A":
             ctx.sample(dict(op=describe(ops[3]), fresh_result=[x if not isinstance(x, bytes) else x.hex() for x in ref[None][3][0][:5]], state_key=list(base_key)))
             ctx.sample(dict(pair=[describe(ops[1]), describe(ops[n // 2])]))
